@@ -484,7 +484,7 @@ class Parser:
         self.next_token()
         if self._detect_routine_start():
             if (not self._context.get_routine(name).undefined
-                    or not self._context.get_macro(name).undefined):
+                    or self._context.has_macro(name)):
                 return self.token_error('Already defined: "{}"')
             return self._routine_definition(name)
         return self._macro_definition(name)
@@ -511,7 +511,7 @@ class Parser:
         parameter in a routine. The symbol has global scope, even if it is
         defined inside a routine.
         """
-        if (not self._context.get_macro(name).undefined
+        if (self._context.has_macro(name)
                 or not self._context.get_routine(name).undefined):
             return self.trigger_error('Already defined: "{}"'.format(name))
         value = self._current_literal()
